@@ -17,7 +17,10 @@ META = {
             "lowest possible layer, AllIns/AllOuts are exactly reachability, CritIns/CritOuts exactly the "
             "transitive reduction, pushTight terminates without its panic and keeps every edge left to right below "
             "Nlayer, LayoutMap puts no two nodes on one coordinate, inside width x height, TopoSort is a "
-            "topological order, Reverse twice gives the sorted edge lists back (plus dangling names as nodes).  The "
+            "topological order, Reverse twice gives the sorted edge lists back (plus dangling names as nodes); Remove / "
+            "SubGraph / Rename return exactly the induced resp. renamed edges and the checker's verdict carries over to "
+            "them, Closure returns the map of the given nodes plus everything between two of them and never reaches "
+            "its panic for names that are nodes.  The "
             "layout theorems are instantiated with the sort orders, reserved slots and snapNearBy arms regenerated "
             "from /repo on every run; the text of every other modelled function is compared with the text the model "
             "follows; the model is run inside Coq (vm_compute, two iteration orders) against the real package on "
@@ -28,7 +31,8 @@ META = {
             "ranks, comparison, independent textbook oracles); Go's sort.Sort and map semantics are modelled (sets as "
             "duplicate-free lists, iteration order as a permutation oracle in makeLayers/minCircle/buildAlls/Reverse; "
             "the loops of pushTight/LayoutMap are order-independent by construction and modelled in stored order); "
-            "Closure(), RevLayout and the JSON output are not modelled; no axioms.",
+            "RevLayout, a second LayoutMap on the same Map, AllInsSorted and the JSON output are checked by the "
+            "implementation-only oracle, not modelled; no axioms.",
     "technique": "Coq proof (invariants of Kahn layering, level-order search, closure propagation, slot reservation; "
                  "induction) + go/ast translation of sort orders and layout constants + vm_compute correspondence on "
                  "exhaustive small scopes + independent graph oracles",
@@ -116,9 +120,210 @@ def reach_sets(keys, adj, order):
     return reach
 
 
+def facts(keys, adj, order):
+    """Textbook facts of an accepted graph: layer, nlayer, reach, rin, crit outs, crit ins."""
+    outs = {k: set(adj[k]) for k in keys}
+    insets = {k: set() for k in keys}
+    for k in keys:
+        for t in outs[k]:
+            insets[t].add(k)
+    layer = {}
+    for u in order:
+        layer[u] = 1 + max((layer[p] for p in insets[u]), default=-1)
+    nlayer = 1 + max(layer.values(), default=-1)
+    reach = reach_sets(keys, adj, order)
+    rin = {k: set() for k in keys}
+    for u in keys:
+        for t in reach[u]:
+            rin[t].add(u)
+    crit = {u: sorted(v for v in outs[u] if not any(v in reach[w] for w in reach[u] if w != v)) for u in keys}
+    critin = {k: [] for k in keys}
+    for u in sorted(keys):
+        for v in crit[u]:
+            critin[v].append(u)
+    return outs, insets, layer, nlayer, reach, rin, crit, critin
+
+
+def verdict_of(keys, adj):
+    keyset = set(keys)
+    if any(t not in keyset for k in keys for t in adj[k]):
+        return "missing"
+    return "ok" if topo_or_none(keys, adj) is not None else "circle"
+
+
+def derived_ok(got, exp_adj, what, bad):
+    """got: observed derived graph; exp_adj: dict key -> list (expected, in order)."""
+    g = {e["k"]: e["adj"] for e in got.get("g") or []}
+    if g != exp_adj or len(got.get("g") or []) != len(exp_adj):
+        bad.append(("ops-" + what, "%s returned %r, expected %r" % (what, g, exp_adj)))
+        return
+    want = verdict_of(list(exp_adj), exp_adj)
+    if got.get("v") != want:
+        bad.append(("ops-" + what + "-verdict", "CheckDAG on the result of %s says %r, it is %r" % (what, got.get("v"), want)))
+
+
+def ops_oracle(c, bad):
+    """Remove / SubGraph / Rename / Closure / a second LayoutMap / AllInsSorted / LayoutJSON, read off
+    what they are documented to return and the property's own clauses applied to the results."""
+    o = c["obs"]
+    oo = o.get("ops")
+    oi = c.get("ops")
+    if not oi or not oo:
+        return
+    keys, adj = case_graph(c)
+    keyset = set(keys)
+    x = oi["rm"]
+    derived_ok(oo["rm"], {k: [t for t in adj[k] if t != x] for k in keys if k != x}, "Remove", bad)
+    S = set(oi["sub"]) & keyset
+    derived_ok(oo["sub"], {k: [t for t in adj[k] if t in S] for k in keys if k in S}, "SubGraph", bad)
+    if not oo.get("insame"):
+        bad.append(("ops-input-modified", "Remove/SubGraph/Rename changed the graph they were called on"))
+    ren = oo["ren"]
+    to = {k: oi["ren"][p] for p, k in enumerate(keys) if p < len(oi["ren"])}
+    missing = any(t not in keyset for k in keys for t in adj[k])
+    if 0 <= oi["renerr"] < len(keys):
+        if ren.get("e") != "ferr" or not ren.get("nil"):
+            bad.append(("ops-Rename-error", "the callback failed%s, Rename returned %r (graph nil: %s)"
+                        % (" (and returned a name too)" if oi.get("errname") else "", ren.get("e") or "a graph", bool(ren.get("nil")))))
+    elif missing:
+        if ren.get("e") != "missing" or not ren.get("nil"):
+            bad.append(("ops-Rename-error", "a list names something that is not a node, Rename returned %r" % (ren.get("e") or "a graph")))
+    elif ren.get("e"):
+        bad.append(("ops-Rename-error", "Rename failed (%s) on a graph whose names are all nodes" % ren["e"]))
+    elif oi.get("inj"):
+        exp = {to[k]: sorted(to[t] for t in adj[k]) for k in keys}
+        got = {e["k"]: e["adj"] for e in ren.get("g") or []}
+        if got != exp:
+            bad.append(("ops-Rename", "Rename returned %r, expected %r" % (got, exp)))
+        elif ren.get("v") != o.get("v"):
+            bad.append(("ops-Rename-verdict", "the renamed graph is judged %r, the graph itself %r" % (ren.get("v"), o.get("v"))))
+    else:
+        got = {e["k"]: e["adj"] for e in ren.get("g") or []}
+        pre = {}
+        for k in keys:
+            pre.setdefault(to[k], []).append(sorted(to[t] for t in adj[k]))
+        if set(got) != set(pre) or any(got[k] not in pre[k] for k in got):
+            bad.append(("ops-Rename", "Rename (two nodes with one new name) returned %r" % got))
+    if o.get("v") != "ok":
+        return
+    order = topo_or_none(keys, adj)
+    outs, insets, layer, nlayer, reach, rin, crit, critin = facts(keys, adj, order)
+    # AllInsSorted: the indirect inputs in layer order, names breaking ties
+    if 0 <= oi["aisof"] < len(keys):
+        k = keys[oi["aisof"]]
+        want = sorted(rin[k], key=lambda u: (layer[u], u))
+        if oo.get("ais") != want:
+            bad.append(("ops-AllInsSorted", "AllInsSorted(%d) = %r, expected %r" % (k, oo.get("ais"), want)))
+    # a second LayoutMap on the same Map is a layout again
+    re_ = {n["k"]: n for n in oo.get("re") or []}
+    w, h = oo.get("rewh", [0, 0])
+    if set(re_) != keyset or w != nlayer or not oo.get("resets"):
+        bad.append(("ops-relayout", "second LayoutMap: node set, width %r (layers %d) or node sets changed" % (w, nlayer)))
+    else:
+        pos = {}
+        for k in keys:
+            xk, yk = re_[k]["x"], re_[k]["y"]
+            if not (0 <= xk < w and 0 <= yk < h):
+                bad.append(("ops-relayout", "second LayoutMap: node %d at (%d,%d) outside %dx%d" % (k, xk, yk, w, h)))
+            if (xk, yk) in pos:
+                bad.append(("ops-relayout", "second LayoutMap: nodes %d and %d both at (%d,%d)" % (pos[(xk, yk)], k, xk, yk)))
+            pos[(xk, yk)] = k
+        for u in keys:
+            if any(not re_[u]["x"] < re_[v]["x"] for v in outs[u]):
+                bad.append(("ops-relayout", "second LayoutMap: an edge from %d is not strictly left to right" % u))
+                break
+    if oo.get("jsonbad"):
+        bad.append(("ops-json", "LayoutJSON differs from the view: %s" % oo["jsonbad"]))
+    # a call sequence on ONE Map object: every layout it produces is a layout of the Map's orientation
+    # at that moment (edges strictly left to right, distinct coordinates, inside width x height)
+    for n, st in enumerate(oo.get("seq") or []):
+        pre = "call sequence %s, step %d (%s, map %s)" % (oi.get("seq"), n, st["op"], "reversed" if st.get("flip") else "as built")
+        if st.get("bad"):
+            bad.append(("seq-panic", "%s: %s" % (pre, st["bad"][:120])))
+            break
+        if st["op"] in ("Y", "V", "L"):
+            nd = {x["k"]: x for x in st.get("nodes") or []}
+            w, h = st.get("wh", [0, 0])
+            if set(nd) != keyset or w != nlayer:
+                bad.append(("seq-layout", "%s: node set or width %r (layers %d)" % (pre, w, nlayer)))
+                break
+            pos = {}
+            ok = True
+            for k in keys:
+                xk, yk = nd[k]["x"], nd[k]["y"]
+                if not (0 <= xk < w and 0 <= yk < h):
+                    bad.append(("seq-layout", "%s: node %d at (%d,%d) outside %dx%d" % (pre, k, xk, yk, w, h)))
+                    ok = False
+                    break
+                if (xk, yk) in pos:
+                    bad.append(("seq-layout", "%s: nodes %d and %d both at (%d,%d)" % (pre, pos[(xk, yk)], k, xk, yk)))
+                    ok = False
+                    break
+                pos[(xk, yk)] = k
+            for u in keys:
+                if not ok:
+                    break
+                for v in outs[u]:
+                    a, b = (v, u) if st.get("flip") else (u, v)      # an edge of the current orientation
+                    if not nd[a]["x"] < nd[b]["x"]:
+                        bad.append(("seq-layout", "%s: edge %d->%d of the map's current orientation is drawn right to left "
+                                                  "(x %d -> %d)" % (pre, a, b, nd[a]["x"], nd[b]["x"])))
+                        ok = False
+                        break
+            if not ok:
+                break
+        elif st["op"] == "S":
+            lay = {}
+            for i, l in enumerate(st.get("layers") or []):
+                for v in l:
+                    lay[v] = i
+            if set(lay) != keyset or any(not (lay[v] < lay[u] if st.get("flip") else lay[u] < lay[v]) for u in keys for v in outs[u]):
+                bad.append(("seq-layers", "%s: SortedLayers does not order the map's current orientation" % pre))
+                break
+    # Closure
+    clo = oi["clo"]
+    if any(t not in keyset for t in clo):
+        if not oo.get("clobad"):
+            bad.append(("ops-Closure", "Closure accepted a name that is not a node"))
+        return
+    if oo.get("clobad"):
+        bad.append(("ops-Closure", "Closure of nodes %r: %s" % (clo, oo["clobad"][:120])))
+        return
+    anc, desc = set(), set()
+    for t in clo:
+        anc |= rin[t]
+        desc |= reach[t]
+    cs = set(clo) | (anc & desc)
+    ckeys = sorted(cs)
+    cadj = {k: sorted(t for t in outs[k] if t in cs) for k in ckeys}
+    corder = topo_or_none(ckeys, cadj)
+    couts, cins, clayer, cnl, creach, crin, ccrit, ccritin = facts(ckeys, cadj, corder)
+    got = {n["k"]: n for n in oo.get("clo") or []}
+    if set(got) != cs:
+        bad.append(("ops-Closure", "Closure(%r) has nodes %r; the nodes and what lies between them are %r"
+                    % (clo, sorted(got), ckeys)))
+        return
+    for k in ckeys:
+        n = got[k]
+        if n["ins"] != sorted(cins[k]) or n["outs"] != sorted(couts[k]) or n["ai"] != sorted(crin[k]) or \
+                n["ao"] != sorted(creach[k]) or n["ci"] != ccritin[k] or n["co"] != ccrit[k]:
+            bad.append(("ops-Closure", "Closure(%r): the sets of node %d are not those of the induced sub-graph" % (clo, k)))
+            break
+    want_n = [sum(len(cadj[k]) for k in ckeys), sum(len(ccrit[k]) for k in ckeys), cnl]
+    if list(oo.get("clon") or []) != want_n:
+        bad.append(("ops-Closure", "Closure(%r): Nedge/Ncrit/Nlayer %r, expected %r" % (clo, oo.get("clon"), want_n)))
+
+
 def impl_oracle(c):
     """Reads the property off the observed results only.  Returns a list of
     (class, description)."""
+    bad = impl_oracle_main(c)
+    if c["obs"].get("v") != "crash":
+        ops_oracle(c, bad)
+    return bad
+
+
+def impl_oracle_main(c):
     o = c["obs"]
     bad = []
     if o.get("v") == "crash":
@@ -278,6 +483,38 @@ def coq_obs(o):
                                                  cl(o.get("topo") or []), nodes, max(o.get("w", 0), 0), o.get("h", 0))
 
 
+VCLS = {"ok": 0, "missing": 1, "circle": 2}
+
+
+def coq_gobs(g):
+    return "(mkG %s %d)" % (coq_graph((e["k"], e["adj"]) for e in g.get("g") or []), VCLS.get(g.get("v"), 9))
+
+
+def coq_ops(c, keys):
+    oi, oo = c["ops"], c["obs"]["ops"]
+    ren = "[" + ";".join("(%d,%d)" % (k, oi["ren"][p]) for p, k in enumerate(keys) if p < len(oi["ren"])) + "]"
+    err = "(Some %d)" % keys[oi["renerr"]] if 0 <= oi["renerr"] < len(keys) else "None"
+    res = {"": 0, "ferr": 1, "missing": 2}.get(oo["ren"].get("e", ""), 9)
+    nodes = ";".join("mkN %d %s %s %s %s %s %s [] [] 0 0" % (n["k"], cl(n["ins"]), cl(n["outs"]), cl(n["ai"]), cl(n["ao"]),
+                                                          cl(n["ci"]), cl(n["co"])) for n in oo.get("clo") or [])
+    e, cr, l = (list(oo.get("clon") or []) + [0, 0, 0])[:3]
+    sops, start_rev = [], False
+    for st in oo.get("seq") or []:
+        if st["op"] == "V":
+            start_rev = True
+        elif st["op"] == "R":
+            sops.append("SRev")
+        elif st["op"] in ("Y", "L"):
+            sops.append("SLay [%s] %d (%d)" % (";".join("(%d,(%d%%nat,(%d)%%Z))" % (x["k"], max(x["x"], 0), x["y"])
+                                                         for x in st.get("nodes") or []), max(st["wh"][0], 0), st["wh"][1]))
+        elif st["op"] == "!":
+            sops.append("SLay [] 0 (-1)")
+    return "(mkO %d %s %s %s %s %s %s %d %s %s %s [%s] (%d, %d, %d)%%nat %s [%s])" % (
+        max(oi["rm"], 0) if oi["rm"] >= 0 else 4294967295, coq_gobs(oo["rm"]), cl(oi["sub"]), coq_gobs(oo["sub"]), ren, err,
+        "true" if oi.get("inj") else "false", res, coq_gobs(oo["ren"]), cl(oi["clo"]),
+        "true" if oo.get("clobad") else "false", nodes, e, cr, l, "true" if start_rev else "false", "; ".join(sops))
+
+
 def to_coq(c):
     o = c["obs"]
     if c.get("f") == "m":
@@ -288,6 +525,8 @@ def to_coq(c):
         r2 = "None"
     else:
         r2 = "(Some %s)" % coq_graph((e["k"], e["adj"]) for e in o.get("r2") or [])
+    if c.get("ops") and o.get("ops"):
+        return "CGO %s %s %s %s" % (coq_graph(ent), coq_obs(o), r2, coq_ops(c, keys))
     return "CG %s %s %s" % (coq_graph(ent), coq_obs(o), r2)
 
 
@@ -511,7 +750,10 @@ def run(ck):
                     "vs vm_compute of Dag/DagCorr.v + independent oracles)",
         trusted=["Coq 8.16.1 kernel + vm_compute", "translator gen/dags.go (sort keys, reserved slots, snap rules, function texts)", "harness/cmd/c19 + checks/c19.py (name ranks, comparison, oracles)",
                  "modelled not verified: Go map semantics and iteration order (permutation oracle), sort.Sort"],
-        rule="fixed corpus; every graph on <= 3 nodes with lists drawn from the nodes plus one non-node name; all "
+        rule="fixed corpus; every graph on <= 3 nodes with lists drawn from the nodes plus one non-node name (each with "
+             "seeded Remove / SubGraph / Rename (callback errors with and without a name, non-injective) / Closure "
+             "(node lists incl. unknown names) / second LayoutMap / AllInsSorted / LayoutJSON, as every general-family "
+             "graph up to 40 nodes); all "
              "65 536 graphs on 4 nodes; seeded (splitmix64) sparse/dense/layered DAGs, DAGs with back edges, rings "
              "with tails and chords, malformed graphs (dangling targets, self loops, duplicate and unsorted "
              "entries); a case is trivial only if it has no node; distinct = distinct (keys, lists)",
